@@ -138,6 +138,34 @@ enum External {
     Renamed,
 }
 
+/// an enum with struct and tuple variants flattened into a struct (serde feeds such maps key by key)
+#[derive(Serialize)]
+enum Shape {
+    Circle { radius: u32 },
+    Pair(i8, i8),
+    Unit,
+}
+
+#[derive(Serialize)]
+struct Tagged {
+    id: u8,
+    #[serde(flatten)]
+    shape: Shape,
+    name: &'static str,
+}
+
+#[derive(Serialize)]
+#[serde(tag = "kind")]
+enum Outer {
+    Wrap(Wrapped),
+}
+
+#[derive(Serialize)]
+struct Wrapped {
+    inner: Shape,
+    n: u8,
+}
+
 #[derive(Serialize)]
 struct UnitStruct;
 
@@ -231,6 +259,10 @@ pub fn cases() -> Vec<TypeCase> {
         case("externally tagged newtype of bytes-as-seq", &External::Newtype(vec![0, 127, 255])),
         case("externally tagged tuple", &External::Tuple(u8::MAX, u16::MAX, u32::MAX)),
         case("externally tagged nested struct", &External::Struct { deep: Box::new(External::Struct { deep: Box::new(External::Renamed) }) }),
+        case("flattened enum: struct variant", &Tagged { id: 7, shape: Shape::Circle { radius: 3 }, name: "c" }),
+        case("flattened enum: tuple variant", &Tagged { id: 7, shape: Shape::Pair(-1, 1), name: "p" }),
+        case("internally tagged newtype holding an enum", &Outer::Wrap(Wrapped { inner: Shape::Circle { radius: 1 }, n: 2 })),
+        case("internally tagged newtype holding a unit variant", &Outer::Wrap(Wrapped { inner: Shape::Unit, n: 2 })),
         case("unit struct", &UnitStruct),
         case("newtype struct", &NewType(u64::MAX)),
         case("tuple struct", &TupleStruct(i8::MIN, "s".into(), Some(()))),
